@@ -331,7 +331,7 @@ def cacher_history(idx, stdlib, headers, between=None, recount_headers=None, ext
         r1 = it.call_function(fa, {"__pos__": [PATH]}, "self")
         m1 = it.call_function(fm, {"__pos__": [PATH]}, "self")
         if between:
-            between(fs, state)
+            between(fs, state, it)
         state["phase"] = 2
         it.store["self.pathed_lines_and_headers"] = {}
         r2 = it.call_function(fa, {"__pos__": [PATH]}, "self")
@@ -398,7 +398,7 @@ def r2(idx, rep):
     rep.analysed(ff)
     bad = None
     for drop in ((), ("json",), ("csv",), ("json", "csv")):
-        def between(fs, state, drop=drop):
+        def between(fs, state, it, drop=drop):
             for suffix in drop:
                 for k in [k for k in fs.files if k.endswith("." + suffix)]:
                     del fs.files[k]
@@ -424,7 +424,7 @@ def r2(idx, rep):
             return self
 
     bad = None
-    for change in ("unchanged", "rewritten"):
+    for change in ("unchanged", "rewritten", "other dialect"):
         def extra(fs, state):
             hx = {}
             for nm in ("os.stat", "os.path.getmtime", "os.path.getsize"):
@@ -441,9 +441,15 @@ def r2(idx, rep):
             hx["os.path.exists"] = lambda i, c, r, a, k: a[0] == PATH or a[0] in fs.files
             return hx
 
-        def between(fs, state, change=change):
+        def between(fs, state, it, change=change):
             if change == "rewritten":
                 state["changed"] = True
+            if change == "other dialect":
+                # the later process reads the same file with another delimiter / quotechar (a different CsvPaths configuration)
+                for k in ("self.csvpaths.delimiter", "self.cache.csvpaths.delimiter"):
+                    it.store[k] = "|"
+                for k in ("self.csvpaths.quotechar", "self.cache.csvpaths.quotechar"):
+                    it.store[k] = '"'
         fs, ps = cacher_history(idx, stdlib, ["a", "b"], between=between, recount_headers=["c", "d"], extra=extra)
         if len(ps) != 1 or ps[0].result[0] != "return":
             bad = bad or f"file {change}: {[p.result for p in ps][:2]}"
@@ -452,22 +458,26 @@ def r2(idx, rep):
         recounted = 2 in [v for kk, v in ps[0].calls("count")]
         if change == "unchanged" and (recounted or r2_ != ["a", "b"]):
             bad = bad or f"file unchanged since it was cached: the entry is not found (counted again: {recounted}, headers {r2_!r})"
+        elif change == "other dialect" and (not recounted or r2_ != ["c", "d"]):
+            bad = bad or ("the file was cached by a process reading it with delimiter ';' and quotechar \"'\"; a later process reading it with delimiter '|' is served that entry "
+                          f"(headers {r2_!r}, counted again: {recounted}): its headers and line counts are the other dialect's, so warm and cold runs differ")
         elif change == "rewritten" and (not recounted or r2_ != ["c", "d"]):
             bad = bad or ("the file at the cached path was rewritten (size 8 → 30, later modification time) and the cache still serves the earlier content's "
                           f"line counts and headers {r2_!r}: a run on the new content stops at the old line count and resolves #names against the old headers")
-    rep.check(bad is None, "R2", f"{fr.file}::cache entries are tied to the file's state", bad or "2 histories", K.where(cr, cr.node))
+    rep.check(bad is None, "R2", f"{fr.file}::cache entries are tied to the file's state", bad or "3 histories", K.where(cr, cr.node))
     # cache key: distinct paths (also with the same file name) get distinct keys; the same path the same key
     fn = idx.method("Cache", "_cache_name")
     keys = {}
-    for pth in ("/a/x/data.csv", "/a/y/data.csv", "/a/x/data.csv", "data.csv", "/b/one.csv"):
+    for pth, dl, qc in (("/a/x/data.csv", ",", '"'), ("/a/y/data.csv", ",", '"'), ("/a/x/data.csv", ",", '"'), ("data.csv", ",", '"'), ("/b/one.csv", ",", '"'),
+                        ("/a/x/data.csv", "|", '"'), ("/a/x/data.csv", ",", "'")):
         it = Interp(idx, types={"self": "Cache"}, handlers=stdlib, unknown_calls="error")
-        ps = it.run_all(fn, args={"filename": pth})
+        ps = it.run_all(fn, args={"filename": pth}, store={"self.csvpaths.delimiter": dl, "self.csvpaths.quotechar": qc})
         if len(ps) != 1 or ps[0].result[0] != "return":
             raise AnalysisError(f"Cache._cache_name not evaluable: {[p.result for p in ps]}")
-        keys.setdefault(ps[0].result[1], set()).add(pth)
+        keys.setdefault(ps[0].result[1], set()).add(pth if (dl, qc) == (",", '"') else f"{pth} read with delimiter {dl!r} quotechar {qc!r}")
     coll = [sorted(v) for v in keys.values() if len(v) > 1]
-    rep.check(not coll and len(keys) == 4, "R2", f"{fn.file}::Cache._cache_name distinguishes paths",
-              f"different files share a cache entry: {coll} (every source-mode: preceding input is called data.csv: a later run would get an earlier run's line counts and headers)", K.where(fn, fn.node))
+    rep.check(not coll and len(keys) == 6, "R2", f"{fn.file}::Cache._cache_name distinguishes paths",
+              f"different files, or one file read with different dialects, share a cache entry: {coll} (every source-mode: preceding input is called data.csv: a later run would get an earlier run's line counts and headers)", K.where(fn, fn.node))
     # LineMonitor dump/load/copy agree field by field (interpreted: a monitor with eight distinct counters is dumped, the text is
     # loaded into a fresh monitor, and the monitor is copied; every counter must arrive unchanged — json is executed as trusted base)
     import json as _json
